@@ -362,6 +362,34 @@ func genC02(tier string, r *rng) {
 		emitKey(keyCase{"pkix", "k.der", spki, o.alg, "", "", nil, nil, o.alg, "PKIX public key"})
 		emitKey(keyCase{"pkcs8", "k.der", p8, o.alg, "", "", nil, [][]byte{priv}, o.alg, "PKCS#8 private key"})
 	}
+	// EC keys with EXPLICIT domain parameters: genuine NIST parameters and look-alikes over the same prime, interleaved in
+	// both orders in one process (a per-process memo of the inferred name would leak between them)
+	{
+		seeds := map[string]string{"P-256": "c49d360886e704936a6678e1139d26b7819f7e90", "P-384": "a335926aa319a27a1d00896a6773a4827acdac73"}
+		for _, sc := range []elliptic.Curve{elliptic.P256(), elliptic.P384()} {
+			pp := sc.Params()
+			a := new(big.Int).Sub(pp.P, big.NewInt(3))
+			flen := (pp.BitSize + 7) / 8
+			c := ecComp{pp.P, a, pp.B, pp.Gx, pp.Gy, pp.N, unhx(seeds[pp.Name]), flen, map[string]string{"P-256": "P-256 (secp256r1, prime256v1)", "P-384": "P-384 (secp384r1)"}[pp.Name]}
+			unc := append(append([]byte{4}, fixed(c.gx, flen)...), fixed(c.gy, flen)...)
+			genuine := c.der(unc, false, nil)
+			look := c.der(unc, false, func(p *asn1struct.ECParameters) { p.Curve.B[len(p.Curve.B)-1] ^= 1 })
+			look2 := c.der(unc, false, func(p *asn1struct.ECParameters) { p.Order = new(big.Int).Add(p.Order, big.NewInt(2)) })
+			wrap := func(params []byte) []byte {
+				return mustMarshal(spkiT{algID{asn1.ObjectIdentifier{1, 2, 840, 10045, 2, 1}, asn1.RawValue{FullBytes: params}}, asn1.BitString{Bytes: unc, BitLength: len(unc) * 8}})
+			}
+			for _, ord := range [][][]byte{{look, genuine, look, genuine}, {genuine, look2, genuine, look}} {
+				for _, params := range ord {
+					exp := ""
+					if bytes.Equal(params, genuine) {
+						exp = c.display
+					}
+					emitKey(keyCase{"pkix-explicit", "k.der", wrap(params), "ecx", exp, "", nil, nil, "", "PKIX public key"})
+					emitKey(keyCase{"ecparams-pem", "p.pem", pemWrap("EC PARAMETERS", params, false), "ecx", exp, "", nil, nil, "", "EC parameters"})
+				}
+			}
+		}
+	}
 	// the repository's own key fixtures (no ground truth: model/oracle skip, crash detection only)
 	_ = dsa.L1024N160
 	_ = rsa.PublicKey{}
